@@ -159,6 +159,27 @@ def trend_specs() -> list[Spec]:
     ]
 
 
+def multi_specs() -> list[Spec]:
+    mt = "multitask.py"
+    V = "V"
+    TBL = OPT(LIST(LIST(V)))
+    return [
+        Spec("gen_multi_check_input", mt, "Multitask", "__check_input__",
+             [("values", "values", OPT(LIST(V))), ("is_tuple!", "is_tuple", BOOL), ("self._n_algorithms", "n", NAT), ("self._m_tasks", "m", NAT)],
+             TBL, fallible=True, skip_params=("self", "name", "kind"),
+             attrs={"idioms": {"not isinstance(values, tuple)": ("(negb is_tuple)", BOOL),
+                               "deepcopy(values[0])": ("(hd serial {values})", V),
+                               "deepcopy(values[idx])": ("(nth {idx} {values} serial)", V),
+                               "deepcopy(values)": ("{values}", LIST(V))}}),
+        Spec("gen_multi_check_modes", mt, "Multitask", "__check_modes__", [("self._modes", "modes", TBL)], "unit", fallible=True,
+             attrs={"idioms": {"all([mode in ModeSolver for mode in list(chain.from_iterable(self._modes))])": ("(forallb valid (concat {self._modes}))", BOOL)}}),
+        Spec("gen_multi_get_mode", mt, "Multitask", "__get_mode__",
+             [("self._modes", "modes", TBL), ("id_optimizer", "id_optimizer", NAT), ("id_prob", "id_prob", NAT)], V, fallible=True,
+             attrs={"idioms": {"'serial'": ("serial", V)},
+                    "calls": {"ModeSolver": lambda arg: (f"(if valid {arg(0)[0]} then Some {arg(0)[0]} else None)", RES(V))}}),
+    ]
+
+
 def emit_group(repo: Path, fname: str, imports: str, section_vars: str, specs: list[Spec], status: dict,
                extra: str = "") -> None:
     tr = Translator(repo, specs)
@@ -204,6 +225,8 @@ def regenerate(repo: Path) -> dict:
     emit_group(repo, "GenTrend.v", "From Coq Require Import List ZArith Bool Arith.\nFrom PV Require Import Xnum Select PyLib Trend.\n"
                "Import ListNotations.\n",
                "Variable A : Type.\nVariable cost : A -> xnum.\nVariable POS : Type.\nVariable pos : A -> POS.\n", trend_specs(), status)
+    emit_group(repo, "GenMulti.v", "From Coq Require Import List ZArith Bool Arith.\nFrom PV Require Import Xnum Select PyLib.\nImport ListNotations.\n",
+               "Variable V : Type.\nVariable valid : V -> bool.\nVariable serial : V.\n", multi_specs(), status)
     import ast as _ast
     try:
         mt = _ast.parse((repo / "pyvolutionary" / "models.py").read_text())
